@@ -625,6 +625,46 @@ func runC10(r *Run) {
 		r.violate(Violation{What: b, Case: fmt.Sprintf("%d goroutines x %d", G, per)})
 	}
 	r.st.Dist["concurrent.roundtrips"] = G * per
+	// the same after SetLevel (the compressor pool is rebuilt): last, because it changes process-wide state
+	if err := repogzip.SetLevel(6); err == nil {
+		var wg2 sync.WaitGroup
+		bad2 := make(chan string, 8)
+		ins := make([][]byte, 8)
+		for i := range ins {
+			ins[i] = g.body(150000 + g.Intn(100000))
+		}
+		for w := 0; w < 8; w++ {
+			wg2.Add(1)
+			go func(w int) {
+				defer wg2.Done()
+				defer func() {
+					if e := recover(); e != nil {
+						bad2 <- fmt.Sprintf("panic under concurrent Compress after SetLevel: %v", e)
+					}
+				}()
+				for i := 0; i < 12; i++ {
+					cb, err := repogzip.Compress(ins[w])
+					if err != nil {
+						bad2 <- "Compress error after SetLevel"
+						return
+					}
+					cb = append([]byte(nil), cb...)
+					out, fin := stdRead(cb)
+					if fin != "E" || !bytes.Equal(out, ins[w]) {
+						bad2 <- "concurrent Compress after SetLevel produced a stream that does not decompress to the input"
+						return
+					}
+				}
+			}(w)
+		}
+		wg2.Wait()
+		close(bad2)
+		for b := range bad2 {
+			r.violate(Violation{What: b, Case: "SetLevel(6), then 8 goroutines x 12 Compress of their own 150-250 KB input"})
+			break
+		}
+		r.st.Dist["concurrent.after-setlevel"] = 96
+	}
 }
 
 // ---- C03 ----
